@@ -138,6 +138,9 @@ func checkC16(w *World, r *Report) {
 	}
 	// ---------- C16.precheck ----------
 	var sumGlobal *ssa.Global
+	var sumOver ssa.Value // the table a run-time sum ranges over
+	var sumField int = -1
+	var sumFn *ssa.Function
 	{
 		guard := GuardSpec{Name: "currentlyLocked >= sum",
 			Edges: func(fn *ssa.Function, bind Bind, isVal func(ssa.Value) bool) []Edge {
@@ -150,12 +153,16 @@ func checkC16(w *World, r *Report) {
 					if _, ok := isCallTo(a[0], "VestingPool.GetCurrentlyLocked"); !ok {
 						return false, false
 					}
-					g := globalOfLoad(a[1])
-					if g == nil {
-						return false, false
+					if g := globalOfLoad(a[1]); g != nil {
+						sumGlobal = g
+						return false, true
 					}
-					sumGlobal = g
-					return false, true
+					// a sum computed at run time: the accumulator of a loop over a table of rows, adding one field of each row
+					if over, field, ok := rowSumOf(a[1]); ok {
+						sumOver, sumField, sumFn = over, field, fn
+						return false, true
+					}
+					return false, false
 				})
 			}}
 		res := cg.GuardCover(mvps, func(s *Site) bool { a := cg.Atom(s); return a == StoreSet || a == StoreDel }, guard, 3)
@@ -207,8 +214,46 @@ func checkC16(w *World, r *Report) {
 				}
 			}
 		}
-		r.Check(okSum && len(splitAmounts) >= 2 && strings.Join(sumParts, ",") == strings.Join(splitAmounts, ","), "C16.precheck", "sum = the amounts of all split calls", w.Pos(mavp.Pos()),
-			fmt.Sprintf("sum adds %v; splits pass %v", sumParts, splitAmounts), fmt.Sprintf("the prechecked sum adds %v but the splits take %v", sumParts, splitAmounts))
+		if sumGlobal == nil && sumOver != nil {
+			// run-time sum over a table: every split takes the same field of a row of the very same table, in a loop that
+			// visits every row - the sum and the splits agree by construction
+			okT, nsp := true, 0
+			why := ""
+			for _, e := range w.effectsBelow(mvps, func(s *Site) bool { return s.Static == split }, 2) {
+				nsp++
+				var amt ssa.Value
+				for _, a := range e.Site.Common().Args {
+					if typeString(a.Type()) == tInt {
+						amt = a
+					}
+				}
+				over, field, ok := rowFieldOf(amt)
+				switch {
+				case !ok:
+					okT, why = false, "a split amount is not a field of a table row"
+				case field != sumField:
+					okT, why = false, "the splits take another field of the row than the one summed"
+				case e.ToRoot(over) != sumOver && !(len(e.Chain) == 0 && over == sumOver):
+					okT, why = false, "the splits range over another table than the one summed"
+				}
+				// the loop over the rows in the function of the split call visits every row
+				var sl *rangeLoop
+				for _, l := range rangeLoops(e.Site.Caller) {
+					l := l
+					if l.Over == over {
+						sl = &l
+					}
+				}
+				if sl == nil || !loopBlocks(sl.Header)[e.Site.Instr.Block()] || loopEarlyExit(*sl) != nil {
+					okT, why = false, "the split call is not in a loop over every row of the table"
+				}
+			}
+			_ = sumFn
+			r.Check(okT && nsp > 0, "C16.precheck", "sum = the amounts of all split calls", w.Pos(mavp.Pos()), "the prechecked sum adds, and every split takes, the same field of every row of one table", "the prechecked sum and the splits do not range over the same amounts: "+why)
+		} else {
+			r.Check(okSum && len(splitAmounts) >= 2 && strings.Join(sumParts, ",") == strings.Join(splitAmounts, ","), "C16.precheck", "sum = the amounts of all split calls", w.Pos(mavp.Pos()),
+				fmt.Sprintf("sum adds %v; splits pass %v", sumParts, splitAmounts), fmt.Sprintf("the prechecked sum adds %v but the splits take %v", sumParts, splitAmounts))
+		}
 	}
 	// ---------- C16.atomic ----------
 	{
@@ -602,4 +647,81 @@ func tableFieldGlobals(v ssa.Value) []string {
 		}
 	}
 	return out
+}
+
+// rowFieldOf: v is field #field of a row of the slice `over` visited by a range loop (the row may be a copy).
+func rowFieldOf(v ssa.Value) (over ssa.Value, field int, ok bool) {
+	field = -1
+	var elem ssa.Value
+	switch x := v.(type) {
+	case *ssa.Field:
+		field, elem = x.Field, x.X
+	case *ssa.UnOp:
+		if fa, isFA := x.X.(*ssa.FieldAddr); isFA && x.Op == token.MUL {
+			field, elem = fa.Field, fa.X
+		}
+	}
+	if field < 0 {
+		return nil, -1, false
+	}
+	var ia *ssa.IndexAddr
+	var findIA func(e ssa.Value, d int)
+	findIA = func(e ssa.Value, d int) {
+		if d > 4 || ia != nil {
+			return
+		}
+		switch x := e.(type) {
+		case *ssa.IndexAddr:
+			ia = x
+		case *ssa.UnOp:
+			findIA(x.X, d+1)
+		case *ssa.Alloc:
+			for _, ref := range *x.Referrers() {
+				if st, isSt := ref.(*ssa.Store); isSt && st.Addr == ssa.Value(x) {
+					findIA(st.Val, d+1)
+				}
+			}
+		}
+	}
+	findIA(elem, 0)
+	if ia == nil {
+		return nil, -1, false
+	}
+	return ia.X, field, true
+}
+
+// rowSumOf: v is the accumulator of a range loop over a slice: zero, plus one field of every row (no early exit).
+func rowSumOf(v ssa.Value) (over ssa.Value, field int, ok bool) {
+	phi, isPhi := v.(*ssa.Phi)
+	if !isPhi {
+		return nil, -1, false
+	}
+	fn := phi.Parent()
+	for _, l := range rangeLoops(fn) {
+		if l.Header != phi.Block() || loopEarlyExit(l) != nil {
+			continue
+		}
+		good, n := true, 0
+		for _, e := range phi.Edges {
+			if isZeroIntValue(e) {
+				continue
+			}
+			c, isAdd := isCallTo(e, "math.Int.Add")
+			if !isAdd || c.Common().Args[0] != ssa.Value(phi) {
+				good = false
+				continue
+			}
+			o, f, okf := rowFieldOf(c.Common().Args[1])
+			if !okf || o != l.Over {
+				good = false
+				continue
+			}
+			over, field = o, f
+			n++
+		}
+		if good && n > 0 {
+			return over, field, true
+		}
+	}
+	return nil, -1, false
 }
